@@ -24,6 +24,11 @@ Shape S.  The enumerated space is
                a>b, a>b>c, a>c+b>c} x how the include is found {includer's directory, -I, -S
                with <> and "", path relative to cwd} x location of each file {cwd,
                subdirectory, absolute path} x {#pragma once, include guard}
+               -- and chains of 2-3 classes, each with published / only public / no members,
+               each derivation public / protected / private / default of class / default of
+               struct / virtual public: a base reachable through the recorded derivations (or
+               named in the python-native tp_bases tuple) must satisfy std::is_convertible
+               <Derived*, Base*> according to g++
   x mode       default | -promiscuous
   x command    none | ignoremember | ignoretype | ignoreinvolved | ignorefile (of the main
                file / of the cwd header) | forcetype | forcevisible    (.N next to the source)
@@ -73,6 +78,11 @@ BACKENDS = {"c": ["-c", "-fnames"], "pynative": ["-python-native"]}
 # every identifier the generator emits: <prefix letters+digits> then _word / Upper+digits
 _MENTION_RE = re.compile(
     r"(?<![A-Za-z0-9])([a-z]{1,2}[0-9]+(?:_[A-Za-z]+[0-9]*[a-z]?|[A-Z][0-9]*))(?![A-Za-z0-9])")
+
+
+class MentionSet(set):
+    """identifiers mentioned by the generated code (+ .tp_bases for python-native)"""
+    tp_bases = None
 
 
 def mentions(code):
@@ -156,6 +166,12 @@ def run_bundle(b, bundle, promiscuous, cmd, backend, rundir):
     db = tools.idb_dump(b, [os.path.join(rundir, "o.in")])
     code = open(os.path.join(rundir, "o.cxx")).read()
     ment = mentions(code)
+    # python-native: the base tuple each generated Python type is given
+    tpb = {}
+    for m in re.finditer(r"Dtool_(\w+)\._PyType\.tp_bases = PyTuple_Pack\(\d+([^;]*)\);", code):
+        tpb[m.group(1)] = re.findall(r"Dtool_(?:Ptr_)?(\w+)", m.group(2))
+    ment = MentionSet(ment)
+    ment.tp_bases = tpb
     syms = None
     if backend == "c":
         syms = set(re.findall(r"^EXPORT_FUNC [^;]*?\b(_in[A-Za-z0-9_]+)\(", code, re.M))
@@ -167,6 +183,7 @@ class Observed:
 
     def __init__(self, db, ment, syms):
         self.ment, self.syms = ment, syms
+        self.tp_bases = getattr(ment, "tp_bases", None) or {}
         T, F, W = db["types"], db["functions"], db["wrappers"]
         self.names = {}          # prefix -> set of identifiers exposed by database records
         self.ctor_int = set()    # (class name, n): a constructor wrapper with n int params exists
@@ -317,6 +334,28 @@ def judge(atom, placement, promiscuous, cmd, obs):
                                        "neither for the class nor for any base class the database "
                                        "lists for it"))
             continue
+        if ident == "@hier":
+            # every base that the database (or the python-native base tuple) makes reachable
+            # from an exported class of the chain must be reachable for an outsider in C++
+            for li, L in enumerate(atom.classes):
+                if L not in obs.cls_defined:
+                    continue
+                seen, todo = set(), list(obs.bases.get(L, []))
+                while todo:
+                    x = todo.pop()
+                    if x in seen:
+                        continue
+                    seen.add(x)
+                    todo += obs.bases.get(x, [])
+                for bi, B in enumerate(atom.classes[:li]):
+                    if B in seen and not atom.conv[(li, bi)]:
+                        leaks.append(("%s->%s" % (L, B), "recorded derivations lead from the "
+                                      "exported class to a base that g++ does not let an outsider "
+                                      "convert to (std::is_convertible is false)"))
+                    if B in obs.tp_bases.get(L, ()) and not atom.conv[(li, bi)]:
+                        leaks.append(("%s->%s" % (L, B), "python-native tp_bases names a base "
+                                      "that is not accessible in C++"))
+            continue
         if ident == "@dtor":
             seen = atom.cname in obs.dtor
             if verdict == "absent" and seen:
@@ -376,6 +415,9 @@ def make_bundles(tier, only):
         placed[pl] += [hg.ProtAtom(pfx("h"), *x) for x in hg.prot_space(tier)]
     out.append((Bundle("singles-all-placements", placed), ALL + PYN))
     # 2. all ordered pairs over the 12 kinds x 7 labels in the command-line file
+    # hierarchies with hidden derivations (their accessibility facts come from g++)
+    chunked("hier", "main", [hg.HierAtom(pfx("y"), c, d) for c, d in hg.hier_space(tier)], 600,
+            [(m, None, be) for be in ("c", "pynative") for m in MODES])
     chunked("pairs-main", "main", class_list(2, hg.LABELS), 1000, NOCWD)
     if tier == "thorough":
         chunked("pairs-publish-main", "main", class_list(2, hg.SECTIONS + ("none",), (True,)),
@@ -413,6 +455,34 @@ def single_case(b, scratch, atom, placement, promiscuous, cmd, backend, tag):
             "leaks": leaks, "missing": missing}
     shutil.rmtree(rundir, ignore_errors=True)
     return leaks, missing, info
+
+
+def probe_hier(bun, scratch):
+    """ask g++ which bases of the hierarchy atoms an outsider may convert to"""
+    atoms = [a for v in bun.placed.values() for a in v if isinstance(a, hg.HierAtom)]
+    if not atoms:
+        return
+    d = os.path.join(scratch, "gxx-" + bun.name)
+    os.makedirs(d, exist_ok=True)
+    src = os.path.join(d, "p.cxx")
+    with open(src, "w") as f:
+        f.write(hg.hier_probe_source(atoms, "".join(a.render() for a in atoms)))
+    r = tools.run(["g++", "-std=c++17", "-w", "-O0"] + tools.PUBLISH_DEFS + ["-o", "p", "p.cxx"],
+                  cwd=d, timeout=900, env=dict(os.environ, LC_ALL="C"))
+    if r.rc != 0:
+        raise HarnessError("g++ rejects the hierarchy atoms (generator broken): %s" % r.err[-1200:])
+    r = tools.run([os.path.join(d, "p")], cwd=d, timeout=60, env={"LC_ALL": "C"})
+    by = {a.p: a for a in atoms}
+    for a in atoms:
+        a.conv = {}
+    for line in r.out.splitlines():
+        pfx, i, j, v = line.split()
+        by[pfx].conv[(int(i), int(j))] = v == "1"
+    for a in atoms:
+        n = len(a.classes)
+        if len(a.conv) != n * (n - 1) // 2:
+            raise HarnessError("g++ probe gave no answer for hierarchy atom " + a.key)
+    shutil.rmtree(d, ignore_errors=True)
 
 
 def eval_run(job):
@@ -454,6 +524,8 @@ def main():
         return replay(ck, b)
     plan = make_bundles(ck.tier, ck.only)
     scratch = ck.scratch()
+    for bun, _ in plan:
+        probe_hier(bun, scratch)
     jobs = []
     for bi, (bun, cfgs) in enumerate(plan):
         for (m, c, be) in cfgs:
@@ -740,6 +812,9 @@ def atom_args(a):
         return {"virt": [a.base_sec, a.der_sec, a.inh, a.constness, a.pure]}
     if isinstance(a, hg.ProtAtom):
         return {"prot": [a.hide, a.hkind, a.reach, a.use]}
+    if isinstance(a, hg.HierAtom):
+        return {"hier": [list(a.contents), list(a.derivs)],
+                "conv": [[i, j, v] for (i, j), v in sorted(a.conv.items())]}
     return {"how": a.how}
 
 
@@ -754,6 +829,10 @@ def atom_from(d):
         return hg.VirtAtom(p, *args["virt"])
     if cls == "ProtAtom":
         return hg.ProtAtom(p, *args["prot"])
+    if cls == "HierAtom":
+        a = hg.HierAtom(p, *args["hier"])
+        a.conv = {(i, j): v for i, j, v in args["conv"]}
+        return a
     return hg.RefAtom(p, args["how"])
 
 
